@@ -922,6 +922,7 @@ def _is_bracketed_ip_literal(host: str) -> bool:
 _ascii_lowercase = str.maketrans(string.ascii_uppercase, string.ascii_lowercase)
 
 
+_pct_encoded_dot = re.compile("%2[eE]")
 _zone_id = re.compile(r"([A-Za-z0-9._~-]|%[0-9A-Fa-f]{2})+")
 
 
@@ -939,6 +940,9 @@ def _remove_dot_segments(path: str) -> str:
     segments = path.split("/")[1:]
     output = []
     for i, segment in enumerate(segments):
+        if _pct_encoded_dot.sub(".", segment) in (".", ".."):
+            # "%2E" is equivalent to "." (RFC 3986 Section 6.2.2.2)
+            segment = _pct_encoded_dot.sub(".", segment)
         if segment in (".", ".."):
             if segment == ".." and output:
                 output.pop()
